@@ -10,6 +10,7 @@
 (*   [k |-> "func", params |-> <<types>> (<<>> = unit parameter),          *)
 (*                  res |-> type or Unit]                                  *)
 (*   [k |-> "var", t |-> type]                                             *)
+(*   [k |-> "lamvar", params, res]   (a top-level let bound to a lambda)   *)
 (* with type terms of FoTypeExpr.  Fo(d) is the Folang text of the         *)
 (* declaration, Surface(d) the Go API surface the documentation promises,  *)
 (* written as COMPILE-TIME ASSERTIONS: Go declarations that type-check     *)
@@ -50,6 +51,8 @@ Fo(d) ==
     [] d.k = "func"   -> "let f@ " \o (IF d.params = <<>> THEN "()" ELSE JoinStr([i \in 1..Len(d.params) |-> "(a" \o ToString(i) \o ":" \o FoT(d.params[i]) \o ")"], " "))
                          \o " =\n  " \o (IF d.res = Unit THEN "()" ELSE IF d.res = B("int") THEN "0" ELSE "\"s\"") \o "\n"
     [] d.k = "var"    -> "let v@ = " \o (IF d.t = B("int") THEN "5" ELSE IF d.t = B("string") THEN "\"s\"" ELSE "true") \o "\n"
+    [] d.k = "lamvar" -> "let v@ = fun " \o JoinStr([i \in 1..Len(d.params) |-> "(a" \o ToString(i) \o ":" \o FoT(d.params[i]) \o ")"], " ")
+                         \o " -> " \o (IF d.res = B("int") THEN "0" ELSE "\"s\"") \o "\n"
 
 Surface(d) ==
   CASE d.k = "record" ->
@@ -72,4 +75,6 @@ Surface(d) ==
     [] d.k = "func"   ->
          <<"var _ func(" \o JoinStr([i \in 1..Len(d.params) |-> GoT(d.params[i])], ",") \o ")" \o (IF d.res = Unit THEN "" ELSE " " \o GoT(d.res)) \o " = f@">>
     [] d.k = "var"    -> <<"var _ *" \o GoT(d.t) \o " = &v@">>
+    \* a top-level let bound to a lambda is a package VARIABLE of function type (addressable, assignable), not a func declaration
+    [] d.k = "lamvar" -> <<"var _ *func(" \o JoinStr([i \in 1..Len(d.params) |-> GoT(d.params[i])], ",") \o ") " \o GoT(d.res) \o " = &v@">>
 =============================================================================
